@@ -45,6 +45,10 @@ def gen_case(rng, tier, wrap=False):
                 if rng.random() < 0.08:
                     r[k] = None
             rows.append(r)
+        if len(rows) >= 3 and rng.random() < 0.2:
+            # a later bar repeats an earlier one figure for figure (flat / quantised markets)
+            i_, j_ = sorted(rng.sample(range(len(rows)), 2))
+            rows[j_] = [rows[j_][0]] + list(rows[i_][1:])
         rng.shuffle(rows)
         assets[name] = rows
         all_days += days
